@@ -155,8 +155,24 @@ impl<P: Problem<Objective = SingleObjective>> Component<P> for Snap<P::Encoding>
 
 type Leaf<'a, P> = &'a dyn Fn(&str, f64, f64) -> Box<dyn Component<P>>;
 
+/// `t` / `f` → a real condition that evaluates to that constant.
+fn cond_of<P: Problem>(c: &Sx) -> Box<dyn mahf::Condition<P>> {
+    mahf::conditions::RandomChance::new(match c.atom().unwrap() { "t" => 1.0, "f" => 0.0, o => panic!("unknown condition {o}") })
+}
+
+/// `C (then ITEM*) (else ITEM*)` → the items of the two arms.
+fn arms(a: &[Sx]) -> (&[Sx], &[Sx]) {
+    let (ht, tb) = a[1].head().unwrap();
+    let (he, eb) = a[2].head().unwrap();
+    assert!(ht == "then" && he == "else" && a.len() == 3);
+    (tb, eb)
+}
+
 /// `(m ID P1 RM)` → the real component followed by a `Snap`; `(scope ITEM*)` → `Scope::new`; `(loop K ITEM*)` →
-/// `Loop::new(LessThanN::iterations(K), ..)`.
+/// `Loop::new(LessThanN::iterations(K), ..)`; `(if C ITEM*)` → `Branch::new`, `(ifelse C (then ITEM*) (else ITEM*))` →
+/// `Branch::new_with_else`, the condition `C` = `t` / `f` being the real `RandomChance` with probability 1 / 0;
+/// `bscope` / `bwhile` / `bif` / `bifelse`: the same constructs through the builder's `scope_` / `while_` / `if_` /
+/// `if_else_` (closures over a fresh builder, `build_component`).
 fn build_items<P: Problem<Objective = SingleObjective>>(items: &[Sx], leaf: Leaf<P>, snap: &Snap<P::Encoding>) -> Vec<Box<dyn Component<P>>>
 where P::Encoding: Clone + Send + Sync + 'static {
     let mut v: Vec<Box<dyn Component<P>>> = vec![];
@@ -170,6 +186,20 @@ where P::Encoding: Clone + Send + Sync + 'static {
             "scope" => v.push(mahf::components::Scope::new(build_items(a, leaf, snap))),
             "loop" => v.push(mahf::components::Loop::new(
                 mahf::conditions::LessThanN::iterations(a[0].nat().unwrap() as u32), build_items(&a[1..], leaf, snap))),
+            "if" => v.push(mahf::components::Branch::new(cond_of(&a[0]), build_items(&a[1..], leaf, snap))),
+            "ifelse" => {
+                let (tb, eb) = arms(a);
+                v.push(mahf::components::Branch::new_with_else(cond_of(&a[0]), build_items(tb, leaf, snap), build_items(eb, leaf, snap)));
+            }
+            "bscope" => v.push(mahf::Configuration::builder().scope_(|b| b.do_many_(build_items(a, leaf, snap))).build_component()),
+            "bwhile" => v.push(mahf::Configuration::builder().while_(
+                mahf::conditions::LessThanN::iterations(a[0].nat().unwrap() as u32), |b| b.do_many_(build_items(&a[1..], leaf, snap))).build_component()),
+            "bif" => v.push(mahf::Configuration::builder().if_(cond_of(&a[0]), |b| b.do_many_(build_items(&a[1..], leaf, snap))).build_component()),
+            "bifelse" => {
+                let (tb, eb) = arms(a);
+                v.push(mahf::Configuration::builder().if_else_(cond_of(&a[0]),
+                    |b| b.do_many_(build_items(tb, leaf, snap)), |b| b.do_many_(build_items(eb, leaf, snap))).build_component());
+            }
             _ => panic!("unknown item {h}"),
         }
     }
@@ -251,7 +281,7 @@ fn run_state_case(a: &[Sx]) -> String {
     }
 }
 
-/// The instances initialised at one level (loops belong to the level, scopes open a new one) all agree on the
+/// The instances initialised at one level (loops and both arms of a branch belong to the level, scopes open a new one) all agree on the
 /// values they share; checked for every level.
 fn levels_consistent(items: &[Sx], has_strength: bool) -> bool {
     fn level<'a>(items: &'a [Sx], out: &mut Vec<(&'a str, u64, u64)>, scopes: &mut Vec<&'a [Sx]>) {
@@ -259,7 +289,9 @@ fn levels_consistent(items: &[Sx], has_strength: bool) -> bool {
             let (h, a) = it.head().unwrap();
             match h {
                 "m" => out.push((a[0].atom().unwrap(), a[1].float().unwrap().to_bits(), a[2].float().unwrap().to_bits())),
-                "scope" => scopes.push(a),
+                "scope" | "bscope" => scopes.push(a),
+                "then" | "else" => level(a, out, scopes),
+                // loop K .. / if C .. / ifelse C (then ..) (else ..): the bodies belong to this level
                 _ => level(&a[1..], out, scopes),
             }
         }
@@ -276,12 +308,18 @@ fn state_site(a: &[Sx]) -> String {
                             "bitflip" => "BitFlipMutation", "bits" => "PartialRandomBitstring", _ => "ScrambleMutation" };
     let runs = &a[3..];
     fn nested(items: &[Sx]) -> bool {
-        items.iter().any(|it| { let (h, a) = it.head().unwrap(); h == "scope" || (h == "loop" && nested(&a[1..])) })
+        items.iter().any(|it| { let (h, a) = it.head().unwrap(); match h {
+            "scope" | "bscope" => true, "m" => false, "then" | "else" => nested(a), _ => nested(&a[1..]) } })
+    }
+    fn branched(items: &[Sx]) -> bool {
+        items.iter().any(|it| { let (h, a) = it.head().unwrap(); match h {
+            "if" | "ifelse" | "bif" | "bifelse" => true, "m" => false, "scope" | "bscope" => branched(a), _ => branched(&a[1..]) } })
     }
     let nest = runs.iter().any(|r| nested(r.head().unwrap().1));
+    let branch = if runs.iter().any(|r| branched(r.head().unwrap().1)) { "+branch" } else { "" };
     let shape = match (runs.len() > 1, nest) { (true, true) => "@rerun-nested", (true, false) => "@rerun", (false, true) => "@nested", _ => "@sequence" };
     let ok = runs.iter().all(|r| levels_consistent(r.head().unwrap().1, kind == "normal" || kind == "uniform"));
-    format!("{base}{shape}{}", if ok { "" } else { "!malformed" })
+    format!("{base}{shape}{branch}{}", if ok { "" } else { "!malformed" })
 }
 
 /// `(a P1 P2 RM)` / `(g P1 P2 RM)`
@@ -979,6 +1017,39 @@ fn generate_state(a: &Args, g: &mut G, emit: &mut dyn FnMut(String)) {
             case(g, &[format!("{} (scope {} (scope {}))", m("a", va, ra), m("g", vb, rg), m("a", vb, rg)), format!("{} {}", m("g", va, ra), m("a", vb, rg))]);
             case(g, &[format!("{} {}", m("a", va, ra), m("b", va, rg)), format!("{} {}", m("b", vb, ra), m("a", vb, rg)), format!("(scope {}) {}", m("b", va, rg), m("b", vb, ra))]);
         }
+        // (F) branches: the instance in the if arm / the else arm of `if_` / `if_else_`, condition true / false, built with
+        // Branch::new / new_with_else (`if`, `ifelse`) and through the builder (`bif`, `bifelse`, `bscope`, `bwhile`):
+        // on a fresh state, under an enclosing / earlier instance of the same type and identifier, in loops, nested
+        for (id, other) in [("g", "b"), ("a", "g")] {
+            for (ie, iff, sc, lp) in [("ifelse", "if", "scope", "loop 2"), ("bifelse", "bif", "bscope", "bwhile 2")] {
+                for (own, stale) in [(0.0, 1.0), (1.0, 0.0), (0.5, 1.0)] {
+                    let (x, y, o) = (m(id, va, own), m(id, vb, stale), m(other, vb, stale));
+                    for c in ["t", "f"] {
+                        // fresh state: the arm's instance has nothing but its own init
+                        case(g, &[format!("({ie} {c} (then {x}) (else))")]);
+                        case(g, &[format!("({ie} {c} (then) (else {x}))")]);
+                        case(g, &[format!("({ie} {c} (then {x}) (else {o}))")]);
+                        case(g, &[format!("({ie} {c} (then {o}) (else {x})) {x}")]);
+                        case(g, &[format!("({iff} {c} {x}) {o}")]);
+                        // an enclosing instance of the same type and identifier with other values
+                        case(g, &[format!("{y} ({sc} ({ie} {c} (then {x}) (else {o})))")]);
+                        case(g, &[format!("{y} ({sc} ({ie} {c} (then {o}) (else {x}))) {y}")]);
+                        case(g, &[format!("{y} ({sc} ({iff} {c} {x}) {o})")]);
+                        case(g, &[format!("{y} ({iff} {c} ({sc} {x} ({ie} {c} (then {x}) (else))))")]);
+                        // an earlier run left other values
+                        case(g, &[y.clone(), format!("({ie} {c} (then {x}) (else {o}))")]);
+                        case(g, &[format!("({ie} {c} (then {y}) (else))"), format!("({ie} {c} (then {o}) (else {x}))"), format!("({iff} {c} {y})")]);
+                        // loops around and inside branches, branches in branches
+                        case(g, &[format!("({lp} ({ie} {c} (then {x}) (else {o})))")]);
+                        case(g, &[format!("({ie} {c} (then ({lp} {x})) (else ({lp} {o} {x})))")]);
+                        case(g, &[format!("({iff} t ({ie} f (then {o}) (else ({iff} {c} {x}) ({ie} {c} (then) (else {x})))))")]);
+                        case(g, &[format!("{y} ({sc} ({lp} ({ie} {c} (then ({sc} ({iff} t {y}))) (else {x}))))")]);
+                    }
+                }
+            }
+        }
+        // the same type and identifier with different values in the two arms: ONE level (the else arm's init wins) -> `!malformed`
+        case(g, &[format!("(ifelse t (then {}) (else {}))", m("g", va, 0.0), m("g", va, 1.0))]);
         // instances of one type and identifier with different values at ONE level: the later init wins (outside what
         // identifiers are for: site `!malformed`, the model must agree)
         case(g, &[format!("{} {}", m("g", va, 1.0), m("g", va, 0.0))]);
@@ -1006,12 +1077,28 @@ fn random_items(g: &mut G, ps: &[f64], depth: usize, in_loop: bool, vals: &[(f64
     let mut out = vec![];
     for _ in 0..n {
         match g.rng.below(10) {
-            0 | 1 | 2 if depth < 3 => out.push(format!("(scope {})", random_level(g, ps, depth + 1, false))),
+            0 | 1 if depth < 3 => {
+                let h = if g.rng.chance(1, 3) { "bscope" } else { "scope" };
+                out.push(format!("({h} {})", random_level(g, ps, depth + 1, false)));
+            }
             3 if !in_loop && !*looped => {
                 *looped = true;
                 let k = g.rng.range(1, 3);
+                let h = if g.rng.chance(1, 3) { "bwhile" } else { "loop" };
                 let body = random_items(g, ps, depth, true, vals, looped);
-                out.push(format!("(loop {k} {body})"));
+                out.push(format!("({h} {k} {body})"));
+            }
+            // a branch: its arms belong to this level (same values per identifier)
+            2 | 4 if depth < 3 => {
+                let c = if g.rng.chance(1, 2) { "t" } else { "f" };
+                let via = g.rng.chance(1, 3);
+                let tb = random_items(g, ps, depth + 1, in_loop, vals, looped);
+                if g.rng.chance(1, 3) {
+                    out.push(format!("({} {c} {tb})", if via { "bif" } else { "if" }));
+                } else {
+                    let eb = if g.rng.chance(1, 4) { String::new() } else { random_items(g, ps, depth + 1, in_loop, vals, looped) };
+                    out.push(format!("({} {c} (then {tb}) (else {eb}))", if via { "bifelse" } else { "ifelse" }));
+                }
             }
             _ => {
                 // mostly the first two identifiers, so that instances of one type and identifier meet
